@@ -9,6 +9,8 @@ def _nontrivial(recs):
     cut = any(r.get("ev") == "Reserve" and 0 < len(r["res"]) < len(r["cands"]) or
               (r.get("ev") == "Reserve" and len(r["cands"]) > 0 and len(r["res"]) == 0) for r in recs)
     failed = any(r.get("failed") for r in recs)
+    if (recs[0].get("cfg") or {}).get("scn") == "storm":
+        return sum(1 for r in recs if r.get("ev") == "Round") >= 100
     return cut and failed and has(recs, "ClearPeer") and has(recs, "Clear") and has(recs, "Tick")
 
 
@@ -17,13 +19,16 @@ PROP = dict(
     mc=[dict(module="PieceRequests", cfg="MC_PieceRequests.cfg"),
         dict(module="PieceRequests", cfg="MC_PieceRequests_thorough.cfg", tiers=("thorough",), timeout=1500)],
     trace=dict(module="PieceRequestsTrace", cfg="PieceRequestsTrace.cfg"),
+    trace_alt={"storm": dict(module="PieceRequestsStorm", cfg="PieceRequestsStorm.cfg")},
     nontrivial=_nontrivial, chunk_lines=2500, max_rejections=8,
     rule="seeded random histories (25-60 calls: ReservePieces with random candidate sets / piece counts / endgame flag, "
          "MarkUnsent, MarkInvalid, Clear, ClearPeer, clock steps of 1..timeout+1 on a clock.Mock; 3 peers, 4 pieces, both "
          "selection policies, agent limit 0-3, origin limit 1-4, timeout 1-3) on a real piecerequest.Manager; after every call "
          "PendingPieces of every peer and GetFailedRequests are logged and must equal the specification's; "
          "non-trivial = some reservation was cut short by quota or validity, the failed report was non-empty at some point, "
-         "and the history contains ClearPeer, Clear and Tick. The last few traces are the dedicated scenario of known finding F15.",
+         "and the history contains ClearPeer, Clear and Tick. The last few sequential traces are the dedicated scenario of known finding F15; "
+         "after them come STORM histories: rounds in which eight goroutines reserve disjoint pieces for one peer at the same time, the "
+         "peer's pending pieces checked against its pipeline limit once per round (PieceRequestsStorm).",
     assumptions=["a peer is an origin or an agent for the whole history (isPeerOrigin is fixed per peer)",
                  "ReservePieces is modelled as returning min(quota, #valid candidates) pieces (what both policies do); "
                  "which ones is free, except that rarest_first never prefers a more common piece",
